@@ -402,8 +402,8 @@ theorem w_x_from_texts (cfg : Cfg) (hD1 : cfg.fixDeleteAll = true) (hD17 : cfg.f
     (hW : ∀ w ∈ W, w.WF = true) (hne : W ≠ [])
     (hpX : ∀ w ∈ X, Wcoll.pieceOK (Spec.renderWord w) = true)
     (hd : Spec.joinComma (W.map Spec.renderWord) ≠ ['-'])
-    (hdom : targetDomain cfg .whole [] (fun _ _ => none) (fun _ => false) (wSegs W ++ xSegs X) none = true) :
-    cliFinal cfg (envOf .whole [] (fun _ _ => none) (fun _ => false) (wSegs W ++ xSegs X) none)
+    (hdom : targetDomain cfg .whole [] [] (fun _ _ => none) (fun _ => false) (wSegs W ++ xSegs X) none = true) :
+    cliFinal cfg (envOf .whole [] [] (fun _ _ => none) (fun _ => false) (wSegs W ++ xSegs X) none)
         [.w (Spec.joinComma (W.map Spec.renderWord)), .x (Spec.joinComma (X.map Spec.renderWord))] =
       .ok ((Spec.expand₂ W).filter fun h => !(Spec.expand₁ X).contains h) :=
   Hostlist.w_x_from_texts cfg hD1 hD17 hD19 h2Br W X hW hne hpX hd hdom
@@ -415,8 +415,8 @@ theorem wfile_from_texts (cfg : Cfg) (hD1 : cfg.fixDeleteAll = true) (hD17 : cfg
     (hD19 : cfg.fixRemoveDepth = true) (h2Br : cfg.fix2Br = true) (mode : Wcoll.LineMode) (fs : Wcoll.FS)
     (path : Str) (ws X : List Spec.Word) (hpp : Wcoll.pieceOK ('^' :: path) = true)
     (hpX : ∀ w ∈ X, Wcoll.pieceOK (Spec.renderWord w) = true)
-    (hdom : targetDomain cfg mode fs (fun _ _ => none) (fun _ => false) ([Seg.tfile path ws] ++ xSegs X) none = true) :
-    cliFinal cfg (envOf mode fs (fun _ _ => none) (fun _ => false) ([Seg.tfile path ws] ++ xSegs X) none)
+    (hdom : targetDomain cfg mode fs [] (fun _ _ => none) (fun _ => false) ([Seg.tfile path ws] ++ xSegs X) none = true) :
+    cliFinal cfg (envOf mode fs [] (fun _ _ => none) (fun _ => false) ([Seg.tfile path ws] ++ xSegs X) none)
         [.w ('^' :: path), .x (Spec.joinComma (X.map Spec.renderWord))] =
       .ok ((Spec.expand₂ ws).filter fun h => !(Spec.expand₁ X).contains h) :=
   Hostlist.wfile_from_texts cfg hD1 hD17 hD19 h2Br mode fs path ws X hpp hpX hdom
@@ -426,17 +426,17 @@ open PdshVerif.Opt PdshVerif.Opt.Exclude PdshVerif.Opt.Targets in
     of words and `^file`s, WCOLL: targets in source order (files' words inlined) fully expanded,
     minus every excluded name, filtered -/
 theorem options_from_texts (cfg : Cfg) (hD1 : cfg.fixDeleteAll = true) (hD17 : cfg.fixIterSuffix = true)
-    (hD19 : cfg.fixRemoveDepth = true) (h2Br : cfg.fix2Br = true) (mode : Wcoll.LineMode) (fs : Wcoll.FS)
+    (hD19 : cfg.fixRemoveDepth = true) (h2Br : cfg.fix2Br = true) (mode : Wcoll.LineMode) (fs : Wcoll.FS) (stdin : Str)
     (rematch : Str → Str → Option Bool) (badre : Str → Bool) (segsW segsX : List Seg)
     (wenv : Option (Str × List Spec.Word))
     (hX : ∀ s ∈ segsX, segIsX s = true)
     (hpW : ∀ s ∈ segsW, Wcoll.pieceOK s.text = true) (hpX : ∀ s ∈ segsX, Wcoll.pieceOK (segXText s) = true)
     (hd : Spec.joinComma (segsW.map Seg.text) ≠ ['-'])
-    (hdom : targetDomain cfg mode fs rematch badre (segsW ++ segsX) wenv = true) :
-    cliFinalW cfg (envOf mode fs rematch badre (segsW ++ segsX) wenv) (wenv.map (·.1))
+    (hdom : targetDomain cfg mode fs stdin rematch badre (segsW ++ segsX) wenv = true) :
+    cliFinalW cfg (envOf mode fs stdin rematch badre (segsW ++ segsX) wenv) (wenv.map (·.1))
         [.w (Spec.joinComma (segsW.map Seg.text)), .x (Spec.joinComma (segsX.map segXText))] =
-      .ok (targetSpec (envOf mode fs rematch badre (segsW ++ segsX) wenv) (segsW ++ segsX) wenv) :=
-  Hostlist.options_from_texts cfg hD1 hD17 hD19 h2Br mode fs rematch badre segsW segsX wenv hX hpW hpX hd hdom
+      .ok (targetSpec (envOf mode fs stdin rematch badre (segsW ++ segsX) wenv) (segsW ++ segsX) wenv) :=
+  Hostlist.options_from_texts cfg hD1 hD17 hD19 h2Br mode fs stdin rematch badre segsW segsX wenv hX hpW hpX hd hdom
 
 /-- LOOK-UP BY NAME: in the list built from ANY accepted text, `hostlist_find(name)` answers the
     index of the FIRST occurrence of `name` in the spec's expansion of the text, and -1 exactly
@@ -539,7 +539,7 @@ def exW : List Word :=
    .plain "bar".toList]
 def exX : List Word := [.plain "foo1-0".toList, .plain "bar".toList]
 example : PdshVerif.Opt.Exclude.cliFinal Cfg.repaired
-    (PdshVerif.Opt.Targets.envOf .whole [] (fun _ _ => none) (fun _ => false) (wSegs exW ++ xSegs exX) none)
+    (PdshVerif.Opt.Targets.envOf .whole [] [] (fun _ _ => none) (fun _ => false) (wSegs exW ++ xSegs exX) none)
     [.w "foo[1-2]-[0-1],bar".toList, .x "foo1-0,bar".toList] =
     .ok ["foo1-1".toList, "foo2-0".toList, "foo2-1".toList] := by
   have h := PdshVerif.C01.w_x_from_texts Cfg.repaired rfl rfl rfl rfl exW exX (by decide) (by decide)
